@@ -310,4 +310,101 @@ def callKeys (user method : String) (strs : List String) : List String :=
 def callTargets (H : Hasher) (inst : UserInst) (user method : String) (strs : List String) : List Outcome :=
   (callKeys user method strs).map fun k => inst.dispatch H (strKey k)
 
+/-! ### a panic INSIDE a critical section (round 5c): the hash func, or `String()` of a STORED node (`removeRingNode`'s
+`repr(x)`, `insertRingNode`'s `repr(nodes[i])`), fails in iteration `i` of a loop. The lock is released by `defer`; the
+state is what the completed iterations left. -/
+
+/-- `Remove(n)` interrupted at the start of iteration `i` (nothing of iteration `i` has happened; `removeNode` not reached) -/
+def partialRemove (H : Hasher) (s : CH) (n : Node) (i : Nat) : CH :=
+  if s.nodes.contains n.repr then
+    (List.range (min i s.replicas)).foldl (fun s j => removePoint s (H.point n.repr j) n.repr) s
+  else s
+
+/-- the insertion of `AddWithReplicas(n, replicas)` (on the state `Remove` left) interrupted in iteration `i`:
+`addNode` done, `i` complete iterations; `keyAppended`: the failure came from `insertRingNode` (a stored node's
+`String()`), after `h.keys = append(h.keys, hash)` of iteration `i`. The final `sort.Slice` is NOT reached. -/
+def partialInsert (H : Hasher) (s : CH) (n : Node) (replicas : Int) (i : Nat) (keyAppended : Bool) : CH :=
+  let c := clampReplicas s.replicas replicas
+  let pts := points H n.repr (min i c)
+  { s with nodes := if s.nodes.contains n.repr then s.nodes else n.repr :: s.nodes,
+           keys := s.keys ++ pts ++ (if keyAppended && decide (i < c) then [H.point n.repr i] else []),
+           ring := pts.foldl (fun ring x => setBucket ring x (insertNode n (bucket ring x))) s.ring }
+
+/-- an adding operation whose `k`-th hash func call (0-based, counted over the whole operation) panics -/
+def stepHashFault (H : Hasher) (s : CH) (n : Node) (replicas : Int) (k : Nat) : CH :=
+  let rcalls := if s.nodes.contains n.repr then s.replicas else 0
+  if k < rcalls then partialRemove H s n k
+  else partialInsert H (remove H s n) n replicas (k - rcalls) false
+
+/-! ### multi-key `Del`: split per node (round 5c)
+
+`cacheCluster.DelCtx(keys…)` with several keys asks the ring for every key, collects the keys per node
+(`nodes[c] = append(nodes[c], key)`) and sends ONE `DelCtx(ks…)` to every node; a key the ring has no node for is reported
+as an error and sent nowhere. `clusterStore.DelCtx` sends one `Del(key)` per key. -/
+
+def Outcome.addr : Outcome → Option String
+  | .node n => some n.repr
+  | .none => Option.none
+  | .panic => Option.none
+
+/-- every element once, in order of first appearance -/
+def dedupKeep : List String → List String
+  | [] => []
+  | a :: l => a :: (dedupKeep l).filter (· != a)
+
+/-- the nodes of the keys, each once, in order of first appearance -/
+def delNodes (disp : String → Outcome) (keys : List String) : List String :=
+  dedupKeep (keys.filterMap fun k => (disp k).addr)
+
+/-- cache: (node, the keys sent to it in ONE command, in the order of the call) -/
+def delGrouped (disp : String → Outcome) (keys : List String) : List (String × List String) :=
+  (delNodes disp keys).map fun a => (a, keys.filter fun k => (disp k).addr == some a)
+
+/-- kv: one command per key -/
+def delPerKey (disp : String → Outcome) (keys : List String) : List (String × List String) :=
+  keys.filterMap fun k => (disp k).addr.map fun a => (a, [k])
+
+/-- the commands (node, keys of the call among the arguments) a public-method call issues, as far as the keys go -/
+def callCommands (H : Hasher) (inst : UserInst) (user method : String) (strs : List String) : List (String × List String) :=
+  let disp := fun k => inst.dispatch H (strKey k)
+  if multiKey method then
+    (if user = "cache" ∧ strs.length > 1 then delGrouped disp strs else delPerKey disp strs)
+  else delPerKey disp (callKeys user method strs)
+
+/-! ### the order of lock effects (round 5c)
+
+A function body as the list of its effects on `h.lock`; everything else is `work` (and may panic). A panic (or a
+return) after the first `p` effects runs the deferred unlocks. `lockAfter effs p` = (write holds, read holds) left. -/
+
+inductive Eff where
+  | lock | unlock | rlock | runlock | deferUnlock | deferRUnlock | work
+  deriving DecidableEq, Repr
+
+def Eff.apply (st : Int × Int) : Eff → Int × Int
+  | .lock => (st.1 + 1, st.2)
+  | .unlock => (st.1 - 1, st.2)
+  | .rlock => (st.1, st.2 + 1)
+  | .runlock => (st.1, st.2 - 1)
+  | .deferUnlock => (st.1 - 1, st.2)      -- when it RUNS
+  | .deferRUnlock => (st.1, st.2 - 1)
+  | .work => st
+
+def Eff.isDefer : Eff → Bool
+  | .deferUnlock => true
+  | .deferRUnlock => true
+  | _ => false
+
+/-- execute the first `p` effects (a `defer` only registers), then the registered defers -/
+def lockAfter (effs : List Eff) (p : Nat) : Int × Int :=
+  let pre := effs.take p
+  let st := (pre.filter (!·.isDefer)).foldl Eff.apply (0, 0)
+  (pre.filter (·.isDefer)).foldl Eff.apply st
+
+/-- `Get`: RLock, defer RUnlock, then the lookup (hash func, `String()` of the key, `String()` of nothing else) -/
+def getEffs : List Eff := [.rlock, .deferRUnlock, .work]
+/-- `Remove`: repr(node) lock free, Lock, defer Unlock, the loop -/
+def removeEffs : List Eff := [.work, .lock, .deferUnlock, .work]
+/-- `AddWithReplicas` (both accepted forms): lock-free prologue (Remove / clamp / repr), Lock, defer Unlock, the loop -/
+def addEffs : List Eff := [.work, .lock, .deferUnlock, .work]
+
 end GoZero.C15
